@@ -4,7 +4,8 @@
    Model/DocutilsEsc.v, Model/Html2Stan.v, Model/DeprecateText.v.  Specs: Spec/Xml.v (an XML 1.0 subset reader
    written from the recommendation), Spec/StanXml.v (what a stan tree means). *)
 From Coq Require Import ZArith NArith List Bool.
-From PydoctorVerif Require Import Base.Sexp Gen.TablesC10 Model.Stan Spec.Xml Spec.StanXml Proofs.EscProofs.
+From PydoctorVerif Require Import Base.Sexp Gen.TablesC10 Model.Stan Model.DocutilsEsc Model.Html2Stan Model.DeprecateText
+  Spec.Xml Spec.StanXml Proofs.EscProofs Proofs.ReparseProofs Proofs.DeprecateProofs.
 Import ListNotations.
 Local Open Scope N_scope.
 
@@ -53,10 +54,133 @@ Theorem C10_ctrl_chars_partial :
   (forall t, existsb illegal t = true -> read (flatten (SText t)) = None).
 Proof. split; [exact illegal_spec | split; [exact illegal_chars_survive | exact illegal_chars_rejected]]. Qed.
 
-(* non-vacuity: a tree holding script tags, a CDATA end, a comment end, entity look-alikes and quotes, in text and in
-   an attribute, satisfies the hypothesis; its flattened form is read back as itself. *)
 Definition nasty : text :=
   [60; 115; 99; 114; 105; 112; 116; 62; 93; 93; 62; 45; 45; 62; 38; 108; 116; 59; 34; 39; 38; 35; 54; 48; 59].
+
+(* docutils' encode / attval (the escaping of every text node and attribute value the HTML writer emits): no '<' (60),
+   '>' (62), double quote (34) in the output for ANY text; and the XML reader inverts them -- attval after mapping the
+   white space characters TAB LF VT FF CR to a space -- except for U+00A0, which the html4css1 writer emits as an entity that
+   XML does not define (see C10_html2stan_roundtrip_refuted). *)
+Theorem C10_docutils_escape :
+  forall t,
+    (~ In 60 (encode t) /\ ~ In 62 (encode t) /\ ~ In 34 (encode t)) /\
+    (~ In 60 (attval t) /\ ~ In 62 (attval t) /\ ~ In 34 (attval t)) /\
+    (forallb xml_char t = true -> ~ In 160 t -> unescape (encode t) = Some t) /\
+    (forallb (fun c => xml_char c || memN c attval_ws) t = true -> ~ In 160 t ->
+       unescape (attval t) = Some (map ws_space t)).
+Proof.
+  intro t. split; [exact (encode_no_markup t)|]. split; [exact (attval_no_markup t)|].
+  split; [exact (unescape_encode t) | exact (unescape_attval t)].
+Qed.
+
+(* The re-parse path of signatures, colourised values and docstrings: for every text of XML Chars and C0 controls -- FORM
+   FEED and NO-BREAK SPACE excepted -- html2stan (encode t) is the transparent tag holding ONE text node (none for the empty
+   text): the text itself, line ends normalised, each control character neutralised by stanutils._RE_CONTROL's substitute.
+   No element, no attribute can come out of t. *)
+Theorem C10_html2stan_roundtrip_partial :
+  forall t, forallb reparse_ok t = true ->
+    html2stan (encode t) = H2Ok (STag [] [] (text_kids (neutralise (eol_norm t)))).
+Proof. exact html2stan_encode. Qed.
+
+(* ... and on the unchanged tree it does fail for the two excepted characters: the parser raises, the caller drops the
+   whole signature / value / docstring rendering (known findings C10-formfeed-reparse, C10-nbsp-reparse). *)
+Theorem C10_html2stan_roundtrip_refuted :
+  html2stan (encode [12]) = H2ParseError /\ html2stan (encode [160]) = H2ParseError.
+Proof. split; [exact html2stan_formfeed | exact html2stan_nbsp]. Qed.
+
+Example C10_html2stan_hypotheses_satisfiable :
+  forallb reparse_ok (nasty ++ [1; 13; 10; 11; 31]) = true /\
+  html2stan (encode (nasty ++ [1; 13; 10; 11; 31]))
+  = H2Ok (STag [] [] [SText (nasty ++ [92; 120; 48; 49; 10; 92; 120; 48; 98; 92; 120; 49; 102])]).
+Proof. split; vm_compute; reflexivity. Qed.
+
+(* Start tags of the docutils writer as pydoctor drives it (rst- prefixing, heading class, class / id merging): whatever
+   the node's classes and ids and the keyword attributes hold, the tag proper reads back as ONE element whose attributes
+   are the computed ones with attval-normalised values: values cannot close the tag, add attributes or open elements.
+   Hypotheses: tag and attribute names are XML names (they are literals of the writer), values hold XML Chars / white space
+   and no U+00A0.  partial: the <span id=...> anchors docutils adds for additional ids are written without attval. *)
+Theorem C10_starttag_safe_partial :
+  forall i p t a s,
+    starttag_parts i = Some (p, t, a, s) ->
+    is_name t = true -> forallb (fun kv => is_name (fst kv)) a = true -> forallb value_ok a = true ->
+    read (open_tag t a (st_empty i) ++ (if st_empty i then [] else 60 :: 47 :: t ++ [62]))
+    = Some [XElem t (rendered_attrs a) []].
+Proof. exact starttag_reads_back. Qed.
+
+(* additional ids are interpolated raw: with a quote in the second id the output is not well-formed.  (docutils only ever
+   stores ids normalised by make_id there; pydoctor's epytext sections use one slugified id.) *)
+Definition w_ids : starttag_in :=
+  {| st_tag := [100; 105; 118]; st_node_classes := []; st_node_ids := [[97]; [34; 60]];
+     st_inline_first := false; st_empty := false; st_suffix := []; st_attrs := [] |}.
+Theorem C10_starttag_extra_ids_refuted :
+  exists out, starttag w_ids = Some out /\ read (out ++ [60; 47; 100; 105; 118; 62]) = None.
+Proof.
+  exists [60; 100; 105; 118; 32; 105; 100; 61; 34; 114; 115; 116; 45; 97; 34; 62; 60; 115; 112; 97; 110; 32; 105; 100; 61;
+          34; 114; 115; 116; 45; 34; 60; 34; 62; 60; 47; 115; 112; 97; 110; 62].
+  split; vm_compute; reflexivity.
+Qed.
+
+Definition w_start : starttag_in :=
+  {| st_tag := [72; 50]; st_node_classes := [nasty]; st_node_ids := [nasty];
+     st_inline_first := false; st_empty := false; st_suffix := [10];
+     st_attrs := [([67; 76; 65; 83; 83], AStr nasty); ([104; 114; 101; 102], AStr (35 :: nasty));
+                  ([116; 105; 116; 108; 101], AStr nasty)] |}.
+Example C10_starttag_hypotheses_satisfiable :
+  match starttag_parts w_start with
+  | Some (p, t, a, s) =>
+    is_name t = true /\ forallb (fun kv => is_name (fst kv)) a = true /\ forallb value_ok a = true /\ length a = 4%nat
+  | None => False
+  end.
+Proof. vm_compute. auto. Qed.
+
+(* validate_identifier accepts exactly the texts whose dot-separated pieces are Python identifiers (str.isidentifier, tables
+   regenerated from the running Python); an accepted text holds, among ASCII characters, only letters, digits, '_' and '.',
+   and no line separator, white space or back-quote: nothing that is markup in reStructuredText or HTML. *)
+Theorem C10_identifier_guard :
+  forall t,
+    (validate_identifier t = true <-> Forall (fun p => isidentifier p = true) (split_on 46 t)) /\
+    (validate_identifier t = true -> forall c, In c t ->
+       (c < 128 -> c = 46 \/ ident_ascii c = true) /\
+       memN c line_breaks = false /\ memN c py_space = false /\ c <> 96).
+Proof. intro t. split; [exact (validate_identifier_spec t) | exact (identifier_guard t)]. Qed.
+
+Example C10_identifier_guard_examples :
+  validate_identifier [97; 46; 98; 95; 49] = true /\ validate_identifier [97; 45; 98] = false /\
+  validate_identifier [60; 98; 62] = false /\ validate_identifier [97; 46; 46; 98] = false /\
+  validate_identifier [] = false /\ validate_identifier [97; 10] = false.
+Proof. vm_compute. auto 6. Qed.
+
+(* The reStructuredText that getDeprecated hands to the parser is meant to be a directive line plus ONE body line.
+   It is, when the replacement argument holds no line separator other than LF (which the code replaces) ... *)
+Theorem C10_deprecate_one_line_partial :
+  forall name package version repl t,
+    deprecation_text name package version repl = Some t ->
+    nbk name = true -> nbk version = true ->
+    (forall r, repl = Some r -> forallb (fun c => negb (is_break c) || (c =? 10)) r = true) ->
+    count_breaks (deprecation_doc version t) = 1%nat.
+Proof. exact deprecate_one_line. Qed.
+
+(* ... and it is not in general: a CR (likewise FS GS RS NEL LS PS) in a non-identifier replacement starts a new line, after
+   which the argument's text is parsed as reST blocks -- a raw directive included (known finding C10-deprecated-replacement;
+   the same argument can also leave its inline literal with a back-quote or with white space at either end, which is a
+   matter of docutils' inline parser and not modelled). *)
+Theorem C10_deprecate_one_line_refuted :
+  exists t, deprecation_text [102] [112] [49] (Some [13]) = Some t /\
+            count_breaks (deprecation_doc [49] t) = 2%nat.
+Proof. exact deprecate_one_line_cr. Qed.
+
+Example C10_deprecate_hypotheses_satisfiable :
+  match deprecation_text [102] [112; 46; 113] [49; 46; 50] (Some nasty) with
+  | Some t =>
+    nbk [102] = true /\ nbk [49; 46; 50] = true /\
+    forallb (fun c => negb (is_break c) || (c =? 10)) nasty = true /\
+    count_breaks (deprecation_doc [49; 46; 50] t) = 1%nat
+  | None => False
+  end.
+Proof. vm_compute. auto. Qed.
+
+(* non-vacuity: a tree holding script tags, a CDATA end, a comment end, entity look-alikes and quotes, in text and in
+   an attribute, satisfies the hypothesis; its flattened form is read back as itself. *)
 Definition w_tree : stan :=
   STag [100; 105; 118] [([99; 108; 97; 115; 115], nasty)]
        [SText nasty; STag [] [] [SText [60]]; STag [98; 114] [] []; SText nasty].
